@@ -33,9 +33,12 @@ GEN1 = """"linalg.generic"({i0}, {i1}, {o}) <{{indexing_maps = [affine_map<(d0) 
 
 
 GEN1S = """"linalg.generic"({ops}) <{{indexing_maps = [{maps}], iterator_types = [#linalg.iterator_type<parallel>], operandSegmentSizes = array<i32: 2, 1>}}> ({{
-{ind}^bb1(%x{t} : i32, %y{t} : i32, %z{t} : i32):
-{ind}  %m{t} = "arith.muli"(%x{t}, %y{t}) : (i32, i32) -> i32
-{ind}  "linalg.yield"(%m{t}) : (i32) -> ()
+{ind}^bb1(%x{t} : {e0}, %y{t} : {e1}, %z{t} : i32):
+{ind}  %xc{t} = "{k0}"(%x{t}) : ({e0}) -> {c0}
+{ind}  %yc{t} = "{k1}"(%y{t}) : ({e1}) -> {c1}
+{ind}  %m{t} = "arith.muli"(%xc{t}, %yc{t}) : (i64, i64) -> i64
+{ind}  %r{t} = "arith.trunci"(%m{t}) : (i64) -> i32
+{ind}  "linalg.yield"(%r{t}) : (i32) -> ()
 {ind}}}) {{tag = {t} : i32}} : ({tys}) -> ()"""
 
 
@@ -234,11 +237,15 @@ def render(case):
             elif o[0] == "gens":
                 _, buf, pos, out, t = o
                 # the scalar is a function argument, or (pos ..._i) computed from the loop counter like the tile offsets
-                ins = [("%zi" if pos.endswith("_i") else "%zp", "i32", "affine_map<(d0) -> ()>"), (buf, ty(buf), "affine_map<(d0) -> (d0)>")]
+                # (pos ..._d: the loop counter itself, without an index computation in between)
+                sc = ("%i", "index") if pos.endswith("_d") else ("%zi", "i32") if pos.endswith("_i") else ("%zp", "i32")
+                ins = [(sc[0], sc[1], "affine_map<(d0) -> ()>", sc[1]), (buf, ty(buf), "affine_map<(d0) -> (d0)>", "i32")]
                 if pos.startswith("last"):
                     ins.reverse()
                 L.append(P + GEN1S.format(ops=", ".join(x[0] for x in ins) + ", " + out, maps=", ".join(x[2] for x in ins) + ", affine_map<(d0) -> (d0)>",
-                                          tys=", ".join(x[1] for x in ins) + ", " + ty(out), t=t, ind=P))
+                                          tys=", ".join(x[1] for x in ins) + ", " + ty(out), t=t, ind=P, e0=ins[0][3], e1=ins[1][3],
+                                          c0="i64", c1="i64", k0="arith.extsi" if ins[0][3] == "i32" else "arith.index_cast",
+                                          k1="arith.extsi" if ins[1][3] == "i32" else "arith.index_cast"))
             else:
                 L.append(P + GEN1.format(i0=o[1], i1=o[2], o=o[3], t=o[4], t0=ty(o[1]), t1=ty(o[2]), t2=ty(o[3]), ind=P))
         L.append(P + '"snax.cluster_sync_op"() : () -> ()')
@@ -471,6 +478,7 @@ def run(chk):
         "feedback2": (2, ("%t0",), ((("copy", "%t0", "%sb", next(tag)),), (("gen", "%sa", "%sc", "%t0", next(tag)),))),
         "feedback3": (3, ("%t0", "%t1"), ((("copy", "%t0", "%sb", next(tag)),), (("gen", "%t1", "%sc", "%t0", next(tag)),), (("gen", "%sa", "%sc", "%t1", next(tag)),))),
         "chain3_index_scalar": (3, ("%t0", "%t1"), ((("copy", "%sa", "%t0", next(tag)),), (("gens", "%t0", "first_i", "%t1", next(tag)),), (("gens", "%t1", "last_i", "%sb", next(tag)),))),
+        "chain3_counter_scalar": (3, ("%t0", "%t1"), ((("copy", "%sa", "%t0", next(tag)),), (("gens", "%t0", "first_d", "%t1", next(tag)),), (("gens", "%t1", "last_d", "%sb", next(tag)),))),
         "chain4_index_op_between_stages": (4, ("%t0", "%t1", "%t2"), ((("copy", "%sa", "%t0", next(tag)),), (("gen", "%t0", "%sc", "%t1", next(tag)),),
                                                                           (("idxop",), ("gen", "%t1", "%sm", "%t2", next(tag))), (("copy", "%t2", "%sb", next(tag)),))),
         "chain3_index_op_between_stages": (3, ("%t0", "%t1"), ((("copy", "%sa", "%t0", next(tag)),), (("idxop",), ("gen", "%t0", "%sm", "%t1", next(tag))), (("copy", "%t1", "%sb", next(tag)),))),
